@@ -577,6 +577,12 @@ def run(ctx):
     # C2. the join planner takes the database qualifier off (resolve_table) and process_table puts it back for the fetch: the two steps composed are the identity
     for label, ok, msg, line in join_fetch_table(ctx):
         ctx.ob('C10.join-fetch-table', label, ok, msg, file=PJ, line=line, witness='select * from int1.int1.orders a join int2.u b on a.id = b.id')
+    nr = 0
+    for label, ok, msg, line in cte_reference_route(ctx):
+        nr += 1
+        ctx.ob('C10.cte-reference-route', label, ok, msg, file=QP, line=line, witness='with a as (select * from int1.t) select * from a join int2.u on ...  (default namespace int1)')
+    ctx.setcount('cte_reference_rows', nr)
+    ctx.floor('cte_reference_rows', 4)
     # C3. a query (or join) sent as a whole to one integration mentions no table that belongs elsewhere: the decision table of both gates (C11's, re-run)
     from . import C11
     ng = 0
@@ -781,6 +787,54 @@ def select_route_table(ctx):
         ok = len(taken) == 1 and ((taken[0] == 'plan_select_from_predictor') == want_model) and not taken[0].startswith('raises')
         out.append((label, ok, f'[{label}] plan_select_identifier takes {taken}: the model planner is for a select FROM a model and nothing else - a table handed to it has no '
                                f'model record (internal TypeError), a model handed to an integration planner is fetched as a table', psi.lineno))
+    return out
+
+
+def cte_reference_route(ctx):
+    """plan_select (with everything it consults before it routes: the single-integration gate, get_query_info, resolve_database_table - all interpreted) on an INNER
+    select whose FROM names a CTE of the enclosing query, under a default namespace that is a data integration (`USE int1`): the select must reach
+    plan_select_identifier (which recognises the CTE reference) - it must not be fetched from the integration as if the CTE name were a table there.
+    -> [(label, ok, message, line)]"""
+    from ..interp import Interp, Obj, Raised, Env
+    qp = class_named(ctx.src.tree(QP), 'QueryPlanner')
+    ps = function_named(qp, 'plan_select')
+    ctx.need(ps is not None, 'QueryPlanner.plan_select not found')
+    out = []
+
+    def traverse(it, query, callback, **kw):
+        for node, flags in (query.attrs.get('_visits') or []) if isinstance(query, Obj) else []:
+            callback(node, **flags)
+        return None
+    for ns, written in itertools.product(('int1', 'mindsdb'), ('a', 'A')):
+        ref = Obj('Identifier', parts=[written], alias=None)
+        query = Obj('Select', cte=None, from_table=ref, targets=[Obj('Star')], where=None, group_by=None, having=None, order_by=None, limit=None, offset=None,
+                    distinct=False, alias=None, parentheses=False, using=None, mode=None,
+                    _visits=[(ref, dict(is_table=True, is_target=False, parent_query=None, callstack=[]))])
+        added, taken = [], []
+
+        def add_step(step):
+            added.append(step)
+            return step
+        self_ = Obj('QueryPlanner', projects=['mindsdb', 'proj'], databases=['int1', 'int2', 'mindsdb', 'proj'], integrations={'int1': {}, 'int2': {}},
+                    default_namespace=ns, cte_results={'a': Obj('Step', result=Obj('Result'))}, plan=Obj('QueryPlan', steps=[], add_step=add_step),
+                    predictor_info={}, query=Obj('Select', _outer=True))
+        stubs = {'query_traversal': traverse, 'utils.query_traversal': traverse, 'self.is_predictor': lambda it, n: False, 'self.get_predictor': lambda it, n: None,
+                 'Identifier': lambda it, *a, **k: Obj('Identifier', parts=list(k.get('parts') or (a[0] if a else [])), alias=k.get('alias')),
+                 'FetchDataframeStep': lambda it, *a, **k: Obj('FetchDataframeStep', **k),
+                 'self.prepare_integration_select': lambda it, *a, **k: None,
+                 'self.plan_select_identifier': lambda it, q, *a, **k: (taken.append('plan_select_identifier'), Obj('Step', result=Obj('Result')))[1]}
+        it = Interp.for_file(ctx.src, QP, {'Identifier': set(), 'Select': set(), 'Function': set(), 'NativeQuery': set(), 'Data': set(), 'Union': set(), 'Except': set(),
+                                           'Intersect': set(), 'Join': set(), 'Star': set()}, stubs)
+        label = f'FROM {written} (a CTE of the enclosing query), default namespace {ns}'
+        try:
+            it.call_function(ps, [self_, query], {}, Env())
+        except Raised as r:
+            taken.append(f'raises {r.exc_name}')
+        fetched = [st for st in added if isinstance(st, Obj) and st.kind == 'FetchDataframeStep']
+        ok = taken == ['plan_select_identifier'] and not fetched
+        out.append((label, ok, f'[{label}] plan_select {"fetches the select from " + repr(fetched[0].attrs.get("integration")) if fetched else "takes " + repr(taken)}: an inner '
+                               f'select FROM a CTE name must reach plan_select_identifier, which reads the CTE result; the outer CTE names are not known to the '
+                               f'single-integration gate, so a gate consulted at inner levels takes the name for a table of the default integration', ps.lineno))
     return out
 
 
